@@ -285,9 +285,11 @@ impl NameResolution {
                     ast::Item::Fn(func) => {
                         let full_name = full_def_name(package_name, &func.name.0);
                         if package_name != "Builtin"
-                            && hir::BuiltinId::from_name(&full_name).is_some()
+                            && (hir::BuiltinId::from_name(&full_name).is_some()
+                                || full_name == "missing")
                         {
-                            // The typer and the Go backend recognise these builtins by name.
+                            // The typer and the Go backend recognise these builtins by name, and
+                            // the match compiler calls the runtime's `missing` by its name.
                             self.error(format!(
                                 "function name {} is reserved for a builtin",
                                 full_name
